@@ -870,6 +870,17 @@ def check_sink(repo: Repo, res: Result, it: M.Interp, s: M.Sink, walk_ok: "bool 
             res.add("C10.R4", part_key(repo, p) + " [include mode only]", False, f"`{norm(p.node, 70)}` appends {what} under `{show(gate)}` although externals are excluded: with externals excluded the module list is not the scanned list", p.where(), kind="dominance")
         else:
             res.undecide("C10.R4", part_key(repo, p) + " [include mode only]", f"cannot establish that `{show(gate)}` implies that externals are included", p.where())
+        # excluded externals disappear together with their imports: a name derived from an import reaches the module list only
+        # when the patterns spare it (the importee: itself and its ancestors; an ancestor: itself, unless it is a scanned module)
+        concl = conj([f_not(EX), f_not(EXA)]) if p.what == "self" else disj([f_not(atom(f"EXCL[anc:{E}]")), atom(f"INSCAN[anc:{E}]")])
+        st, w = tri(it, conj([gate, f_not(FLAG), f_not(INT)]), concl)  # (names below the internal prefix: R3)
+        key_x = part_key(repo, p) + " [excluded externals are not appended]"
+        if st == "ok":
+            res.add("C10.R4", key_x, True, f"{what} of an import become(s) a module only when no external exclusion pattern matches it (the importee: nor one of its ancestors)", p.where(), kind="dominance")
+        elif st == "violated":
+            res.add("C10.R4", key_x, False, f"`{norm(p.node, 70)}` adds {what} of an import as module(s) under `{show(gate)}`, which holds although an external exclusion pattern matches {'the importee or one of its ancestors' if p.what == 'self' else 'that ancestor'} (witness: {fmt_env(w)}): the import is dropped but the excluded external stays in the architecture as a module (the names are derived from imports that were not filtered, and the module-list filter only looks at the name itself)", p.where(), kind="dominance")
+        else:
+            res.observe(f"C10.R4 {key_x}: not decided (`{show(gate)}` -> `{show(concl)}` hinges on facts the model does not know)")
     for whatk, label in (("self", "importee"), ("parents", "ancestors")):
         name = E if whatk == "self" else f"anc:{E}"
         present = disj([*cover[whatk], conj([atom(f"INSCAN[{name}]"), rename_sym(k_scan_r, E, name)])])
